@@ -494,6 +494,10 @@ class LuaGen:
 COMMENT_WORDS = [b'note', b'x=1', b'if then', b'--', b'[[', b']]', b'"', b'todo: \x8e', b'']
 
 
+# comments on lines of their own (both spellings, indented and not, single and stacked)
+OWN_LINE_COMMENTS = [b'\n-- own\n', b'\n  // own line\n', b'\n\t-- t\n  // u\n', b'\n//x\n', b'\n   --[[ blk ]]\n', b'\n// a\n// b\n\n']
+
+
 def layout(rng, items, style='random', final_newline=None, header=None):
     """Join items into source text. Returns (source bytes, list of separators used)."""
     out = bytearray()
@@ -511,13 +515,13 @@ def layout(rng, items, style='random', final_newline=None, header=None):
             nl_ok = not it.no_nl_before
             if need_nl:
                 opts = [b'\n', b'\n', b' \n', b'\n\n', b' -- ' + rng.choice(COMMENT_WORDS).replace(b'\n', b' ') + b'\n',
-                        b'\r\n', b' // c\n', b'\n  ']
+                        b'\r\n', b' // c\n', b'\n  '] + OWN_LINE_COMMENTS
                 sep = rng.choice(opts) if style != 'compact' else b'\n'
             elif style == 'compact':
                 sep = b' ' if sep_needed else b''
             elif style == 'lines':
                 if it.kind == 'stat-start' and nl_ok:
-                    sep = rng.choice([b'\n', b'\n', b'\n  ', b'\n\n', b'  \n\t', b' \n', b'\n\n\n ', b' -- c\n'])
+                    sep = rng.choice([b'\n', b'\n', b'\n  ', b'\n\n', b'  \n\t', b' \n', b'\n\n\n ', b' -- c\n'] + OWN_LINE_COMMENTS)
                 else:
                     sep = b' ' if (sep_needed or rng.random() < 0.7) else b''
             elif style == 'elements':
@@ -542,7 +546,7 @@ def layout(rng, items, style='random', final_newline=None, header=None):
                     opts += [b'', b'', b'']
                 if nl_ok:
                     opts += [b'\n', b'\n', b'\n\n', b' \n  ', b' -- ' + rng.choice(COMMENT_WORDS).replace(b'\n', b' ') + b'\n',
-                             b'\r\n', b'// ' + rng.choice(COMMENT_WORDS).replace(b'\n', b' ') + b'\n', b'\t\n']
+                             b'\r\n', b'// ' + rng.choice(COMMENT_WORDS).replace(b'\n', b' ') + b'\n', b'\t\n'] + OWN_LINE_COMMENTS
                 sep = rng.choice(opts)
                 if sep.startswith(b'--') and prev.text.endswith(b'-'):
                     sep = b' ' + sep
